@@ -152,6 +152,18 @@ Proof.
     apply (candidate_ext _ _ X). exact Hc.
 Qed.
 
+(* since the tie among equal priorities is resolved by name (/repo 8ebf406) the redirect is a
+   function of the SET of matching redirect rules: the engine's answer is literally the C13 choice
+   over the rule-by-rule hits *)
+Theorem engine_redirect_eq mr fc :
+  r_redirect (engine_check matches pr true url st mr fc B) = C13_Model.redirect_of st (spec_redirects matches L).
+Proof.
+  unfold engine_check. cbn [negb r_redirect]. unfold B, C13_Model.redirect_of.
+  rewrite (C13_Proofs.pick_redirect_set_only _ (spec_redirects matches L)); [reflexivity|].
+  unfold spec_redirects. apply map_In_ext. intros f.
+  apply (redirect_hits_exact h matches pr pr_zero L T f Hinj Htg).
+Qed.
+
 (* the redirect does not look at the blocking side or the flags *)
 Theorem engine_redirect_independent mr fc mr' fc' :
   r_redirect (engine_check matches pr true url st mr fc B) = r_redirect (engine_check matches pr true url st mr' fc' B).
